@@ -10,7 +10,7 @@ open Unifex.Core
 
 /-- `cancel_operation` is executing -/
 def SPh.inCb : SPh → Bool
-  | .cbEnter | .preOwnStop | .notifying | .preDec | .dlv1 | .dlv2 | .cbRet => true
+  | .cbEnter | .preOwnStop | .notifying | .preDec | .dlv1 | .dlv2 | .dlv3 | .cbRet => true
   | _ => false
 
 /-- the callback is executing and has not yet destructed its own registration -/
@@ -39,9 +39,11 @@ def SPh.needsReg : SPh → Bool
 @[simp, grind =] theorem inCb_ret : SPh.inCb .ret = false := rfl
 @[simp, grind =] theorem needsReg_ret : SPh.needsReg .ret = false := rfl
 @[simp, grind =] theorem inCb_fin : SPh.inCb .fin = false := rfl
+@[simp, grind =] theorem inCb_dlv3 : SPh.inCb .dlv3 = true := rfl
+@[simp, grind =] theorem needsReg_dlv3 : SPh.needsReg .dlv3 = false := rfl
 @[simp, grind =] theorem needsReg_fin : SPh.needsReg .fin = false := rfl
 
-attribute [grind =] hold_idle sd_idle early_idle hold_begun sd_begun early_begun hold_cbEnter sd_cbEnter early_cbEnter hold_preOwnStop sd_preOwnStop early_preOwnStop hold_notifying sd_notifying early_notifying hold_preDec sd_preDec early_preDec hold_dlv1 sd_dlv1 early_dlv1 hold_dlv2 sd_dlv2 early_dlv2 hold_cbRet sd_cbRet early_cbRet hold_ret sd_ret early_ret hold_fin sd_fin early_fin
+attribute [grind =] hold_idle sd_idle early_idle hold_begun sd_begun early_begun hold_cbEnter sd_cbEnter early_cbEnter hold_preOwnStop sd_preOwnStop early_preOwnStop hold_notifying sd_notifying early_notifying hold_preDec sd_preDec early_preDec hold_dlv1 sd_dlv1 early_dlv1 hold_dlv2 sd_dlv2 early_dlv2 hold_cbRet sd_cbRet early_cbRet hold_ret sd_ret early_ret hold_fin sd_fin early_fin hold_dlv3 sd_dlv3 early_dlv3
 
 theorem needsReg_inCb (sp : SPh) (h : sp.needsReg = true) : sp.inCb = true := by
   cases sp <;> simp_all
@@ -49,8 +51,8 @@ theorem needsReg_inCb (sp : SPh) (h : sp.needsReg = true) : sp.inCb = true := by
 structure InvB (cfg : Config) (s : St) : Prop where
   cbr : s.cbRunning = s.stopPh.inCb
   ce : s.stopPh.needsReg = true → s.cbReg = true
-  c2 : ∀ c ∈ s.ch, c.ph = .dlv2 → s.cbReg = false ∧ s.cbRunning = false
-  sd2 : s.stopPh = .dlv2 → s.cbReg = false
+  c2 : ∀ c ∈ s.ch, (c.ph = .dlv2 ∨ c.ph = .dlv3) → s.cbReg = false ∧ s.cbRunning = false
+  sd2 : (s.stopPh = .dlv2 ∨ s.stopPh = .dlv3) → s.cbReg = false
   nd : 1 ≤ s.delivered → s.cbReg = false
   dr : 1 ≤ s.delivered → s.cbRunning = true → s.dlvBy = stopTid cfg
   run0 : ∀ c ∈ s.ch, c.ph = .run → c.exec = 0
@@ -82,7 +84,7 @@ syntax "invb_simp" : tactic
 macro_rules
   | `(tactic| invb_simp) => `(tactic|
       simp only [setCh, signalSt, touch_refCount, touch_zeroed, touch_delivered, touch_stopPh, touch_ch,
-        touch_cbReg, touch_cbRunning, touch_cur, touch_dlvBy, touch_ownStop])
+        touch_cbReg, touch_cbRunning, touch_cur, touch_dlvBy, touch_ownStop, touch_recvAtDlv])
 
 syntax "invb_mem" : tactic
 macro_rules
@@ -134,63 +136,63 @@ theorem invB_step {cfg : Config} {s s' : St} (ha : InvA cfg.n s) (hb : InvB cfg 
     have hj := (get_of_some hc).1
     have hpp := cntP_pos hc
     have hdd := cntD_pos hc
-    simp only [hp, pend_run, pend_claimed, pend_preX, pend_preStop, pend_notifying, pend_preDec, pend_dlv1, pend_dlv2, pend_fin, dlv_run, dlv_claimed, dlv_preX, dlv_preStop, dlv_notifying, dlv_preDec, dlv_dlv1, dlv_dlv2, dlv_fin, forall_const, Bool.false_eq_true, false_implies] at hpp hdd
+    simp only [hp, pend_run, pend_claimed, pend_preX, pend_preStop, pend_notifying, pend_preDec, pend_dlv1, pend_dlv2, pend_dlv3, pend_fin, dlv_run, dlv_claimed, dlv_preX, dlv_preStop, dlv_notifying, dlv_preDec, dlv_dlv1, dlv_dlv2, dlv_dlv3, dlv_fin, forall_const, Bool.false_eq_true, false_implies] at hpp hdd
     invb_fin
   | cDereg j c hc hp hcb =>
     have hm := mem_of_get hc
     have hj := (get_of_some hc).1
     have hpp := cntP_pos hc
     have hdd := cntD_pos hc
-    simp only [hp, pend_run, pend_claimed, pend_preX, pend_preStop, pend_notifying, pend_preDec, pend_dlv1, pend_dlv2, pend_fin, dlv_run, dlv_claimed, dlv_preX, dlv_preStop, dlv_notifying, dlv_preDec, dlv_dlv1, dlv_dlv2, dlv_fin, forall_const, Bool.false_eq_true, false_implies] at hpp hdd
+    simp only [hp, pend_run, pend_claimed, pend_preX, pend_preStop, pend_notifying, pend_preDec, pend_dlv1, pend_dlv2, pend_dlv3, pend_fin, dlv_run, dlv_claimed, dlv_preX, dlv_preStop, dlv_notifying, dlv_preDec, dlv_dlv1, dlv_dlv2, dlv_dlv3, dlv_fin, forall_const, Bool.false_eq_true, false_implies] at hpp hdd
     invb_fin
   | cNoX j c hc hp hv =>
     have hm := mem_of_get hc
     have hj := (get_of_some hc).1
     have hpp := cntP_pos hc
     have hdd := cntD_pos hc
-    simp only [hp, pend_run, pend_claimed, pend_preX, pend_preStop, pend_notifying, pend_preDec, pend_dlv1, pend_dlv2, pend_fin, dlv_run, dlv_claimed, dlv_preX, dlv_preStop, dlv_notifying, dlv_preDec, dlv_dlv1, dlv_dlv2, dlv_fin, forall_const, Bool.false_eq_true, false_implies] at hpp hdd
+    simp only [hp, pend_run, pend_claimed, pend_preX, pend_preStop, pend_notifying, pend_preDec, pend_dlv1, pend_dlv2, pend_dlv3, pend_fin, dlv_run, dlv_claimed, dlv_preX, dlv_preStop, dlv_notifying, dlv_preDec, dlv_dlv1, dlv_dlv2, dlv_dlv3, dlv_fin, forall_const, Bool.false_eq_true, false_implies] at hpp hdd
     invb_fin
   | cXwin j c hc hp hv hd =>
     have hm := mem_of_get hc
     have hj := (get_of_some hc).1
     have hpp := cntP_pos hc
     have hdd := cntD_pos hc
-    simp only [hp, pend_run, pend_claimed, pend_preX, pend_preStop, pend_notifying, pend_preDec, pend_dlv1, pend_dlv2, pend_fin, dlv_run, dlv_claimed, dlv_preX, dlv_preStop, dlv_notifying, dlv_preDec, dlv_dlv1, dlv_dlv2, dlv_fin, forall_const, Bool.false_eq_true, false_implies] at hpp hdd
+    simp only [hp, pend_run, pend_claimed, pend_preX, pend_preStop, pend_notifying, pend_preDec, pend_dlv1, pend_dlv2, pend_dlv3, pend_fin, dlv_run, dlv_claimed, dlv_preX, dlv_preStop, dlv_notifying, dlv_preDec, dlv_dlv1, dlv_dlv2, dlv_dlv3, dlv_fin, forall_const, Bool.false_eq_true, false_implies] at hpp hdd
     invb_fin
   | cStopAlready j c hc hp ho =>
     have hm := mem_of_get hc
     have hj := (get_of_some hc).1
     have hpp := cntP_pos hc
     have hdd := cntD_pos hc
-    simp only [hp, pend_run, pend_claimed, pend_preX, pend_preStop, pend_notifying, pend_preDec, pend_dlv1, pend_dlv2, pend_fin, dlv_run, dlv_claimed, dlv_preX, dlv_preStop, dlv_notifying, dlv_preDec, dlv_dlv1, dlv_dlv2, dlv_fin, forall_const, Bool.false_eq_true, false_implies] at hpp hdd
+    simp only [hp, pend_run, pend_claimed, pend_preX, pend_preStop, pend_notifying, pend_preDec, pend_dlv1, pend_dlv2, pend_dlv3, pend_fin, dlv_run, dlv_claimed, dlv_preX, dlv_preStop, dlv_notifying, dlv_preDec, dlv_dlv1, dlv_dlv2, dlv_dlv3, dlv_fin, forall_const, Bool.false_eq_true, false_implies] at hpp hdd
     invb_fin
   | cStopFirst j c hc hp ho =>
     have hm := mem_of_get hc
     have hj := (get_of_some hc).1
     have hpp := cntP_pos hc
     have hdd := cntD_pos hc
-    simp only [hp, pend_run, pend_claimed, pend_preX, pend_preStop, pend_notifying, pend_preDec, pend_dlv1, pend_dlv2, pend_fin, dlv_run, dlv_claimed, dlv_preX, dlv_preStop, dlv_notifying, dlv_preDec, dlv_dlv1, dlv_dlv2, dlv_fin, forall_const, Bool.false_eq_true, false_implies] at hpp hdd
+    simp only [hp, pend_run, pend_claimed, pend_preX, pend_preStop, pend_notifying, pend_preDec, pend_dlv1, pend_dlv2, pend_dlv3, pend_fin, dlv_run, dlv_claimed, dlv_preX, dlv_preStop, dlv_notifying, dlv_preDec, dlv_dlv1, dlv_dlv2, dlv_dlv3, dlv_fin, forall_const, Bool.false_eq_true, false_implies] at hpp hdd
     invb_fin
   | cExit j c hc hp hcur hg =>
     have hm := mem_of_get hc
     have hj := (get_of_some hc).1
     have hpp := cntP_pos hc
     have hdd := cntD_pos hc
-    simp only [hp, pend_run, pend_claimed, pend_preX, pend_preStop, pend_notifying, pend_preDec, pend_dlv1, pend_dlv2, pend_fin, dlv_run, dlv_claimed, dlv_preX, dlv_preStop, dlv_notifying, dlv_preDec, dlv_dlv1, dlv_dlv2, dlv_fin, forall_const, Bool.false_eq_true, false_implies] at hpp hdd
+    simp only [hp, pend_run, pend_claimed, pend_preX, pend_preStop, pend_notifying, pend_preDec, pend_dlv1, pend_dlv2, pend_dlv3, pend_fin, dlv_run, dlv_claimed, dlv_preX, dlv_preStop, dlv_notifying, dlv_preDec, dlv_dlv1, dlv_dlv2, dlv_dlv3, dlv_fin, forall_const, Bool.false_eq_true, false_implies] at hpp hdd
     invb_fin
   | cDecLast j c hc hp hr =>
     have hm := mem_of_get hc
     have hj := (get_of_some hc).1
     have hpp := cntP_pos hc
     have hdd := cntD_pos hc
-    simp only [hp, pend_run, pend_claimed, pend_preX, pend_preStop, pend_notifying, pend_preDec, pend_dlv1, pend_dlv2, pend_fin, dlv_run, dlv_claimed, dlv_preX, dlv_preStop, dlv_notifying, dlv_preDec, dlv_dlv1, dlv_dlv2, dlv_fin, forall_const, Bool.false_eq_true, false_implies] at hpp hdd
+    simp only [hp, pend_run, pend_claimed, pend_preX, pend_preStop, pend_notifying, pend_preDec, pend_dlv1, pend_dlv2, pend_dlv3, pend_fin, dlv_run, dlv_claimed, dlv_preX, dlv_preStop, dlv_notifying, dlv_preDec, dlv_dlv1, dlv_dlv2, dlv_dlv3, dlv_fin, forall_const, Bool.false_eq_true, false_implies] at hpp hdd
     invb_fin
   | cDec j c hc hp hr =>
     have hm := mem_of_get hc
     have hj := (get_of_some hc).1
     have hpp := cntP_pos hc
     have hdd := cntD_pos hc
-    simp only [hp, pend_run, pend_claimed, pend_preX, pend_preStop, pend_notifying, pend_preDec, pend_dlv1, pend_dlv2, pend_fin, dlv_run, dlv_claimed, dlv_preX, dlv_preStop, dlv_notifying, dlv_preDec, dlv_dlv1, dlv_dlv2, dlv_fin, forall_const, Bool.false_eq_true, false_implies] at hpp hdd
+    simp only [hp, pend_run, pend_claimed, pend_preX, pend_preStop, pend_notifying, pend_preDec, pend_dlv1, pend_dlv2, pend_dlv3, pend_fin, dlv_run, dlv_claimed, dlv_preX, dlv_preStop, dlv_notifying, dlv_preDec, dlv_dlv1, dlv_dlv2, dlv_dlv3, dlv_fin, forall_const, Bool.false_eq_true, false_implies] at hpp hdd
     invb_fin
   | cDestruct j c hc hp hb =>
     have hne : c.exec ≠ stopTid cfg := by
@@ -203,14 +205,35 @@ theorem invB_step {cfg : Config} {s s' : St} (ha : InvA cfg.n s) (hb : InvB cfg 
     have hj := (get_of_some hc).1
     have hpp := cntP_pos hc
     have hdd := cntD_pos hc
-    simp only [hp, pend_run, pend_claimed, pend_preX, pend_preStop, pend_notifying, pend_preDec, pend_dlv1, pend_dlv2, pend_fin, dlv_run, dlv_claimed, dlv_preX, dlv_preStop, dlv_notifying, dlv_preDec, dlv_dlv1, dlv_dlv2, dlv_fin, forall_const, Bool.false_eq_true, false_implies] at hpp hdd
+    simp only [hp, pend_run, pend_claimed, pend_preX, pend_preStop, pend_notifying, pend_preDec, pend_dlv1, pend_dlv2, pend_dlv3, pend_fin, dlv_run, dlv_claimed, dlv_preX, dlv_preStop, dlv_notifying, dlv_preDec, dlv_dlv1, dlv_dlv2, dlv_dlv3, dlv_fin, forall_const, Bool.false_eq_true, false_implies] at hpp hdd
+    invb_fin
+  | cSigStop j c hc hp hk hr =>
+    have hm := mem_of_get hc
+    have hj := (get_of_some hc).1
+    have hpp := cntP_pos hc
+    have hdd := cntD_pos hc
+    simp only [hp, pend_run, pend_claimed, pend_preX, pend_preStop, pend_notifying, pend_preDec, pend_dlv1, pend_dlv2, pend_dlv3, pend_fin, dlv_run, dlv_claimed, dlv_preX, dlv_preStop, dlv_notifying, dlv_preDec, dlv_dlv1, dlv_dlv2, dlv_dlv3, dlv_fin, forall_const, Bool.false_eq_true, false_implies] at hpp hdd
+    invb_fin
+  | cNoStop j c hc hp hk hr =>
+    have hm := mem_of_get hc
+    have hj := (get_of_some hc).1
+    have hpp := cntP_pos hc
+    have hdd := cntD_pos hc
+    simp only [hp, pend_run, pend_claimed, pend_preX, pend_preStop, pend_notifying, pend_preDec, pend_dlv1, pend_dlv2, pend_dlv3, pend_fin, dlv_run, dlv_claimed, dlv_preX, dlv_preStop, dlv_notifying, dlv_preDec, dlv_dlv1, dlv_dlv2, dlv_dlv3, dlv_fin, forall_const, Bool.false_eq_true, false_implies] at hpp hdd
+    invb_fin
+  | cSignalR j c hc hp hk =>
+    have hm := mem_of_get hc
+    have hj := (get_of_some hc).1
+    have hpp := cntP_pos hc
+    have hdd := cntD_pos hc
+    simp only [hp, pend_run, pend_claimed, pend_preX, pend_preStop, pend_notifying, pend_preDec, pend_dlv1, pend_dlv2, pend_dlv3, pend_fin, dlv_run, dlv_claimed, dlv_preX, dlv_preStop, dlv_notifying, dlv_preDec, dlv_dlv1, dlv_dlv2, dlv_dlv3, dlv_fin, forall_const, Bool.false_eq_true, false_implies] at hpp hdd
     invb_fin
   | cSignal j c hc hp =>
     have hm := mem_of_get hc
     have hj := (get_of_some hc).1
     have hpp := cntP_pos hc
     have hdd := cntD_pos hc
-    simp only [hp, pend_run, pend_claimed, pend_preX, pend_preStop, pend_notifying, pend_preDec, pend_dlv1, pend_dlv2, pend_fin, dlv_run, dlv_claimed, dlv_preX, dlv_preStop, dlv_notifying, dlv_preDec, dlv_dlv1, dlv_dlv2, dlv_fin, forall_const, Bool.false_eq_true, false_implies] at hpp hdd
+    simp only [hp, pend_run, pend_claimed, pend_preX, pend_preStop, pend_notifying, pend_preDec, pend_dlv1, pend_dlv2, pend_dlv3, pend_fin, dlv_run, dlv_claimed, dlv_preX, dlv_preStop, dlv_notifying, dlv_preDec, dlv_dlv1, dlv_dlv2, dlv_dlv3, dlv_fin, forall_const, Bool.false_eq_true, false_implies] at hpp hdd
     invb_fin
   | nTake t k ck hn hcur hk h0 =>
     have hm := mem_of_get hk
@@ -244,6 +267,9 @@ theorem invB_step {cfg : Config} {s s' : St} (ha : InvA cfg.n s) (hb : InvB cfg 
   | sDecLast hp hr => invb_fin
   | sDec hp hr => invb_fin
   | sDestruct hp => invb_fin
+  | sSigStop hp hk hr => invb_fin
+  | sNoStop hp hk hr => invb_fin
+  | sSignalR hp hk => invb_fin
   | sSignal hp => invb_fin
   | sCbRet hp => invb_fin
   | sRet hp => invb_fin
